@@ -9,10 +9,9 @@ pub(crate) mod style_ser;
 /// plus thin accessors for its private entry points.
 #[allow(dead_code, unused_imports)]
 pub(crate) mod config {
-    include!(concat!(
-        env!("CARGO_MANIFEST_DIR"),
-        "/../../work/repo/cli/src/config.rs"
-    ));
+    // build.rs copies work/repo/cli/src/config.rs here, re-routing full-path
+    // uses of std::fs / SystemTime to the simulator.
+    include!(concat!(env!("OUT_DIR"), "/config.rs"));
 
     /// What every start-up path does for currency, without the 40 ms
     /// definitions load: exactly `try_load_currency`'s first half.
